@@ -257,10 +257,21 @@ func (p *Program) parseContractFile(file, pkgName string) error {
 				} else {
 					lc.decreases = c
 				}
-			case "call":
-				m := reCall.FindStringSubmatch(s)
+			case "call", "send", "recv":
+				if pm := regexp.MustCompile(`^call\s+(\S+)\s+pure$`).FindStringSubmatch(s); pm != nil {
+					// caller-side assumption: this call has no effect on memory / stores
+					cur.calls[pm[1]] = append(cur.calls[pm[1]], &CallClause{kind: "pure", text: "pure"})
+					continue
+				}
+				m := reCall.FindStringSubmatch("call" + strings.TrimPrefix(s, kw))
 				if m == nil {
 					return fmt.Errorf("%s:%d: bad call clause", file, l.line)
+				}
+				if kw == "send" {
+					m[1] = "send:" + m[1] // send <chan>#k assert ... ($val = the value sent)
+				}
+				if kw == "recv" {
+					m[1] = "recv:" + m[1] // recv <chan> assume ... ($val = the value received)
 				}
 				cc := &CallClause{kind: m[2]}
 				text := m[3]
